@@ -18,13 +18,20 @@ def opHistogram (j : Json) : R Json := do
   let len ← jnat (← jget j "len"); let outs ← jlist jnat (← jget j "outs")
   pure (jofList jofNat (Result.histogram len outs))
 
+/-- ops contributed by the component files -/
+def allOps : List (String × (Json → R Json)) :=
+  Jaqal.Emulator.ops
+
 def dispatch (op : String) (j : Json) : R Json :=
   match op with
   | "as_str" => opAsStr j
   | "of_str" => opOfStr j
   | "view_keys" => opViewKeys j
   | "histogram" => opHistogram j
-  | _ => .error s!"unknown op {op}"
+  | _ =>
+    match allOps.lookup op with
+    | some f => f j
+    | none => .error s!"unknown op {op}"
 
 def handleLine (line : String) : String :=
   match Json.parse line with
